@@ -16,6 +16,11 @@ typedef struct {
 /* my_permc: NULL or a permutation (used when opt->ColPerm == MY_PERMC). work/lwork as for ?gstrf. */
 void fact_do(const vf_api *P, const vf_mat *A, const superlu_options_t *opt, const int *my_permc,
              void *work, int_t lwork, int ilu, fact_run *R);
+/* refactorization of the pair held in R on a matrix with the same pattern (mode SamePattern_SameRowPerm or SamePattern) */
+void fact_redo(const vf_api *P, const vf_mat *A2, fact_t mode, void *work, int_t lwork, fact_run *R);
+/* same pattern, new values: kind 0 tiny relative perturbation, 1 unrelated values, 2 the entries that were pivots (rows perm_r^-1) shrunk so that
+   remembered pivots fail the threshold test, 3 row rescaling */
+void mat_revalue(vf_rng *r, const vf_api *P, const vf_mat *A, int kind, const int *perm_r, const int *perm_c, vf_mat *A2);
 void fact_free(fact_run *R);
 /* shared oracle pieces over a factor pair; each returns 0 when fine and otherwise fills why */
 int  check_multipliers(const vf_api *P, const ldc *Ld, int m, int n, double u, char *why, size_t wl, ld *worst);
